@@ -84,6 +84,7 @@ type c15Scenario struct {
 	RootsNil    bool          // the caller names no TSA roots at all (SignRequest.TSARootCAs == nil)
 	PriorSign   bool          // the same envelope object has already signed once, with a valid timestamp
 	StubLatency time.Duration // the stub revocation validator takes this long (fake time)
+	StubPanic   int           // the stub validator panics: 1 with a string, 2 with a struct value, 3 with an error value
 }
 
 func profC15Rev() *RevProfile {
@@ -180,6 +181,9 @@ func genC15(t *Tape) *c15Scenario {
 	if sc.RevMode == RevStub {
 		n := len(w.Certs)
 		sc.StubErr = t.Bool(8)
+		if t.Bool(7) {
+			sc.StubPanic = 1 + t.Choose(3)
+		}
 		sc.StubLenOff = []int{0, -1, 1, -n}[t.Weighted(85, 5, 5, 5)]
 		allGood := t.Bool(45)
 		for i := 0; i < n+sc.StubLenOff; i++ {
@@ -196,6 +200,7 @@ func genC15(t *Tape) *c15Scenario {
 // stubValidator returns a planned result vector.
 type stubValidator struct {
 	vec   []int
+	panik int
 	err   bool
 	lat   time.Duration
 	calls int
@@ -207,6 +212,14 @@ func (s *stubValidator) ValidateContext(ctx context.Context, o revocation.Valida
 	s.chain = o.CertChain
 	if s.lat > 0 {
 		_ = sleepCtx(ctx, s.lat)
+	}
+	switch s.panik {
+	case 1:
+		panic("sim: revocation validator blew up")
+	case 2:
+		panic(panicTokenB{id: "sim-injected-panic/B"})
+	case 3:
+		panic(&panicTokenErr{id: "sim-injected-panic/error"})
 	}
 	if s.err {
 		return nil, errors.New("sim: revocation validator failure")
@@ -395,7 +408,7 @@ func (sc *c15Scenario) exec(obs *c15Obs) {
 	}
 	switch sc.RevMode {
 	case RevStub:
-		obs.Stub = &stubValidator{vec: sc.StubVec, err: sc.StubErr, lat: sc.StubLatency}
+		obs.Stub = &stubValidator{vec: sc.StubVec, err: sc.StubErr, lat: sc.StubLatency, panik: sc.StubPanic}
 		req.TSARevocationValidator = obs.Stub
 	case RevReal:
 		obs.RecV = &recValidator{inner: inf.validators[purpose.Timestamping]}
@@ -539,6 +552,12 @@ func evalC15(sc *c15Scenario, obs *c15Obs, rc *ruleCtx) {
 	active := sc.Scheme == 0 && !sc.NoTimestamp
 	desc := fmt.Sprintf("format=%s key=%s remote=%v tsa=%s fault=%s chain_defect=%s rev=%d", []string{"jws", "cose"}[sc.Format], sc.KeyKind, sc.Remote, tsaBehaviourNames[sc.Behaviour], sc.Fault, tsaDefectNames[w.TSADefect], sc.RevMode)
 	if obs.Panicked {
+		if sc.RevMode == RevStub && sc.StubPanic != 0 && obs.Stub.calls > 0 {
+			// the caller's own validator blew up and the caller got its panic
+			// back: no envelope, nothing to judge
+			rc.st.Probes["c15_stub_validator_panic_reached_caller"]++
+			return
+		}
 		rc.fail("C15.T3", "panic", "Sign panicked: "+fmt.Sprint(obs.PanicVal)+" ("+desc+")")
 		return
 	}
@@ -596,7 +615,7 @@ func evalC15(sc *c15Scenario, obs *c15Obs, rc *ruleCtx) {
 	switch sc.RevMode {
 	case RevStub:
 		n := len(w.Certs)
-		if sc.StubErr || len(sc.StubVec) != n {
+		if sc.StubErr || sc.StubPanic != 0 || len(sc.StubVec) != n {
 			gate = "fail"
 		}
 		for _, v := range sc.StubVec {
@@ -650,7 +669,7 @@ func evalC15(sc *c15Scenario, obs *c15Obs, rc *ruleCtx) {
 		}
 		switch gate {
 		case "fail":
-			rc.fail("C15.T1", fmt.Sprintf("revocation_gate/mode=%d/vec=%v/err=%v", sc.RevMode, sc.StubVec, sc.StubErr), fmt.Sprintf("Sign succeeded although the TSA chain's revocation status does not allow it (stub vector %v err=%v; %s) (%s)", sc.StubVec, sc.StubErr, viewsDesc(obs.Views), desc))
+			rc.fail("C15.T1", fmt.Sprintf("revocation_gate/mode=%d/vec=%v/err=%v/panic=%d", sc.RevMode, sc.StubVec, sc.StubErr, sc.StubPanic), fmt.Sprintf("Sign succeeded although the TSA chain's revocation status does not allow it (stub vector %v err=%v panics=%d; %s) (%s)", sc.StubVec, sc.StubErr, sc.StubPanic, viewsDesc(obs.Views), desc))
 		case "not_called":
 			rc.fail("C15.T1", "revocation_validator_not_called", "Sign succeeded but the supplied TSA revocation validator was never called ("+desc+")")
 		}
@@ -706,7 +725,7 @@ func describeC15(sc *c15Scenario) any {
 	return map[string]any{"format": []string{"jws", "cose"}[sc.Format], "key": sc.KeyKind, "remote_signer": sc.Remote, "scheme": []string{"notary.x509", "notary.x509.signingAuthority"}[sc.Scheme],
 		"timestamper": !sc.NoTimestamp, "tsa_behaviour": tsaBehaviourNames[sc.Behaviour], "tsa_http_fault": sc.Fault.String(), "tsa_latency_ms": sc.Latency.Milliseconds(), "tsa_clock_skew_s": sc.GenSkew.Seconds(),
 		"tsa_timeout_ms": sc.Timeout.Milliseconds(), "cancel": sc.Cancel, "cancel_ms": sc.CancelMs, "tsa_chain_len": len(w.Certs), "tsa_chain_defect": tsaDefectNames[w.TSADefect], "object_signed_before_with_timestamp": sc.PriorSign, "stub_validator_latency_ms": sc.StubLatency.Milliseconds(), "caller_roots_nil": sc.RootsNil, "host_store_trusts_tsa_root": w.UseSysRoot,
-		"revocation_mode": []string{"none", "stub_vector", "real_validator"}[sc.RevMode], "stub_vector": sc.StubVec, "stub_error": sc.StubErr, "tsa_chain_sources": describeRev(sc.Rev)}
+		"revocation_mode": []string{"none", "stub_vector", "real_validator"}[sc.RevMode], "stub_vector": sc.StubVec, "stub_error": sc.StubErr, "stub_panics_with": []string{"-", "string", "struct value", "error value"}[sc.StubPanic], "tsa_chain_sources": describeRev(sc.Rev)}
 }
 
 func runC15(t *Tape, st *Stats, tier string) *RunResult {
